@@ -184,7 +184,6 @@ def none_answered(ctx):
 
 @PROP.obligation('C20.false-to-error', canaries=[
     mut.replace_stmt(SVC, 'Service.gettransactions', 'if txs is False:', 'if txs is False:\n    if not txs_cache:\n        raise ServiceError("Error when retrieving transactions from service provider")\n    txs = []', 'gettransactions continues with the cached part only'),
-    mut.drop_stmt(SVC, 'Service.getbalance', 'if balance is False', 'getbalance skips a failed chunk again'),
     mut.replace_expr(SVC, 'Service.getutxos', 'utxos is False', 'utxos is None', 'getutxos does not recognise the failure value'),
 ])
 def false_to_error(ctx):
